@@ -43,8 +43,11 @@ def derive(rule, siblings):
         p = body[2:]
         bases += ["zq." + p, p] + [s + "." + p for s in siblings.get(p, ())]
     elif exc:
-        p = body.split(".", 1)[1]
+        l, p = body.split(".", 1)
         bases += [body, "zq." + p, p]
+        # labels that are proper substrings / extensions of the excepted label must not be excepted
+        subs = {l[:i] for i in range(1, len(l))} | {l[i:] for i in range(1, len(l))} | {l[1:-1], l + "x", "x" + l}
+        bases += [s + "." + p for s in sorted(subs) if s and s != l]
     else:
         bases.append(body)
     out = []
